@@ -112,6 +112,16 @@ macro_rules! inst {
             pub unsafe extern "C" fn debug(g: &G, out: *mut String) {
                 out.write(format!("{g:?}"));
             }
+            #[export_name = concat!("s", stringify!($n), "_inspect")]
+            pub unsafe extern "C" fn inspect(g: &G, v: usize, out: *mut String) -> bool {
+                match g.inspect(v) {
+                    Ok(s) => {
+                        out.write(s);
+                        true
+                    }
+                    Err(_) => false,
+                }
+            }
             #[export_name = concat!("s", stringify!($n), "_v_print")]
             pub unsafe extern "C" fn v_print(g: &G, v: usize, out: *mut String) -> bool {
                 match g.v_print(v) {
